@@ -57,3 +57,7 @@ Definition table (n m : nat) (f : nat -> nat -> Qc) : list (list Qc) :=
 (* quadratic form sum_i sum_j a_i a_j K(i,j) (what both "inner(A, A)" compute) *)
 Definition qform (K : nat -> nat -> Qc) (a : list Qc) : Qc :=
   sumn (fun i => sumn (fun j => cf a i * cf a j * K i j) (length a)) (length a).
+
+(* autocorrelation normal equation, row i, against the defining sums: sum_j a_j R(|i-j|) *)
+Definition ac_row (x a : list Qc) (i : nat) : Qc :=
+  sumn (fun j => cf a j * acorr_sum x (dist i j)) (length a).
